@@ -543,10 +543,12 @@ def run(prog: Program, res: Result, tier: str) -> None:
         t_true, t_false = tag_of(sel.body), tag_of(sel.orelse)
         for k in (4, 3):
             nb = tuple(f"n{i}" for i in range(k))
-            f = Fold({"atom": "c", "rd_nbrs": nb})
+            f = Fold({"atom": "c", "rd_nbrs": nb, "rd_nbr_order": nb,
+                      "neighbors": nb})
             stmts = sorted([s for s in ast.walk(br) if isinstance(s, ast.Assign)
-                            and s.lineno < sel.lineno and "rd_nbrs" not in
-                            norm(s.targets[0])], key=lambda s: s.lineno)
+                            and s.lineno < sel.lineno and norm(s.targets[0])
+                            not in ("rd_nbrs", "rd_nbr_order", "neighbors")],
+                           key=lambda s: s.lineno)
             f.run(stmts)
             ca = f.ev(side.args[0]) if side.args else UNK
             cp = f.ev(side.args[1]) if len(side.args) > 1 else UNK
